@@ -1025,6 +1025,7 @@ class TT():
             d = len(self.cores)
 
             core_now = self.cores[0]
+            core_next = core_now
             for i in range(d-1):
                 if self.__is_ttm:
                     mode_shape = [core_now.shape[1], core_now.shape[2]]
